@@ -108,6 +108,16 @@ def measuredIndex (name : String) : Option Nat :=
   | 'q' :: ds => parseIndex ds
   | _ => none
 
+/-- the name of the `i`-th loop variable of a TDM program (`f"p{i}"`) -/
+def pName (i : Nat) : String := String.ofList ('p' :: printIndex i)
+
+/-- `tdm.is_ptype(name)` together with `int(name[1:])` (the TDM readers): `len(name) > 1 and name[0] == "p" and
+name[1:].isdigit()` (ASCII digits) -/
+def ptypeIndex (name : String) : Option Nat :=
+  match name.toList with
+  | 'p' :: ds => parseIndex ds
+  | _ => none
+
 /-- an expression over plain SymPy symbols, as the IRs hold it (`RegRefTransform.expr`, the result of
 `par_from_str`): printed forms and the *names* of its symbols -/
 structure ISym where
